@@ -820,7 +820,8 @@ func (s *State) extendFunctionEnv(
 		// By definition function parameters are local copies, deref argument values:
 		pval := object.Value(args[paramIdx])
 		needVariable := true
-		if !s.NoReg && pval.Type() == object.INTEGER && env.HasRegisters() {
+		// (a constant name goes through CreateOrSet below so that an already bound constant can't be shadowed)
+		if !s.NoReg && pval.Type() == object.INTEGER && env.HasRegisters() && !object.Constant(param.Value().Literal()) {
 			// We will release all these registers just by returning/dropping the env.
 			_, nbody, ok := setupRegister(env, param.Value().Literal(), pval.(object.Integer).Value, newBody)
 			if ok {
@@ -1027,6 +1028,11 @@ func (s *State) evalForSpecialForms(fe *ast.ForExpression) (object.Object, bool)
 		return s.Errorf("for var = ... not a var %s", ie.Left.Value().DebugString()), true
 	}
 	name := ie.Left.Value().Literal()
+	if object.Constant(name) {
+		if _, bound := s.env.Get(name); bound {
+			return s.Errorf("attempt to use constant %s as a loop variable", name), true
+		}
+	}
 	if ie.Right.Value().Type() == token.COLON {
 		start := s.evalInternal(ie.Right.(*ast.InfixExpression).Left)
 		startInt, ok := Int64Value(start)
